@@ -45,6 +45,38 @@ SHARD_TIMEOUT = {"quick": 900, "thorough": 3600}
 PBC = "CONFIG_PACKET_BUFFER_COUNT"
 
 
+_DEFAULTS_CACHE: dict = {}
+
+
+def library_defaults(V, acc):
+    """-> ({config name: default value}, {value name: default bytes}) of protocol version V, observed, not read from
+    a table: what write_config({}) sets on an NCP that reports 0 for every setting (every default is then due).
+    Independent of how the tree stores its defaults."""
+    if V in _DEFAULTS_CACHE:
+        return _DEFAULTS_CACHE[V]
+    import bellows.types as t
+    out = [{}, {}]
+
+    async def probe(loop):
+        st = await ncpsim.started(loop, V, acc, "C16")
+        store = ncpmodel.ConfigStore()
+        for m in t.EzspConfigId:
+            store.values[int(m)] = 0
+        for m in t.EzspValueId:
+            store.ezsp_values[int(m)] = b"\x00"
+        ncpmodel.install_config(st.ncp, store)
+        await st.ezsp.write_config({})
+        for kind, ident, val, _ok in store.log:
+            if kind == "cfg":
+                out[0][t.EzspConfigId(ident).name] = int(val)
+            else:
+                out[1][t.EzspValueId(ident).name] = bytes(val)
+
+    vloop.run(probe)
+    _DEFAULTS_CACHE[V] = (out[0], out[1])
+    return _DEFAULTS_CACHE[V]
+
+
 def is_capacity(name: str) -> bool:
     return name.endswith("_TABLE_SIZE") or name.endswith("_CACHE_SIZE") or name in (
         "CONFIG_MAX_END_DEVICE_CHILDREN", "CONFIG_SUPPORTED_NETWORKS")
@@ -80,11 +112,11 @@ def run_shard(desc) -> Acc:
     keys = {}
     for k, validator in schema.items():
         keys[str(k.schema) if hasattr(k, "schema") else str(k)] = (k, validator)
-    defaults = {}  # name -> (value, kind)
-    for cfg in ecfg.DEFAULT_CONFIG[V]:
-        if isinstance(cfg, ecfg.RuntimeConfig):
-            defaults[cfg.config_id.name] = int(cfg.value)
-    value_defaults = {cfg.value_id.name: cfg.value for cfg in ecfg.DEFAULT_CONFIG[V] if isinstance(cfg, ecfg.ValueConfig)}
+    try:
+        defaults, value_defaults = library_defaults(V, acc)  # name -> value
+        defaults, value_defaults = dict(defaults), dict(value_defaults)
+    except ncpsim.BringUpFailed:
+        return acc
     schema_defaults = {}
     for name, (k, _) in keys.items():
         d = getattr(k, "default", vol.UNDEFINED)
@@ -315,7 +347,10 @@ def run_app_shard(desc) -> Acc:
     cls = e.EZSP._BY_VERSION[V]
     schema = cls.SCHEMAS[bconf.CONF_EZSP_CONFIG].schema
     known = {str(k.schema) if hasattr(k, "schema") else str(k) for k in schema}
-    defaults = {cfg.config_id.name: int(cfg.value) for cfg in ecfg.DEFAULT_CONFIG[V] if isinstance(cfg, ecfg.RuntimeConfig)}
+    try:
+        defaults = dict(library_defaults(V, acc)[0])
+    except ncpsim.BringUpFailed:
+        return acc
     cid = lambda name: int(t.EzspConfigId[name])  # noqa: E731
     cname = lambda num: t.EzspConfigId(num).name  # noqa: E731
     # (the multicast table size is answered by the multicast-table model, not by the store)
